@@ -279,6 +279,9 @@ def shard_country(arg):
             bad = t.replace(base[6], "?", 1) + "9"
             must, defs = check_iban(rec, bad, flag, f"ws-extreme-bad:{label}")
             rec.case("ws-extreme-defects", (cc, label, flag) if defs else None)
+        for label, t in (dims.content_extremes(base) if (cc in ("DE", "FR", "GB", "NO", "LC") or o.countries().index(cc) % 8 == 0) else ()):
+            must, defs = check_iban(rec, t, flag, f"content-extreme:{label}")
+            rec.case("content-extreme", (cc, label, flag))
         for label, t in dims.token_variants(base, dims.token_dictionary()[:12]):
             must, defs = check_iban(rec, t, flag, f"token:{label}")
             rec.case("token", (t, flag) if defs else None)
@@ -330,6 +333,9 @@ def shard_bic(arg):
         for label, t in dims.whitespace_extremes(base):
             check_bic(rec, t, strict, f"ws-extreme:{label}")
             rec.case("bic-ws-extreme", None)
+        for label, t in dims.content_extremes(base):
+            check_bic(rec, t, strict, f"content-extreme:{label}")
+            rec.case("bic-content-extreme", (base, label, strict))
         for t in (base, base[:-1], base[:4] + "QQ" + base[6:], "", "A"):
             for form, v in dims.arg_forms(t, _BIC):
                 must, defs = check_bic(rec, v, strict, f"argform:{form}")
@@ -466,6 +472,6 @@ def run(ctx):
         fuzz.run_campaign(ctx.rec, "bic-c05", 100000, ctx.seed, ctx.prop)
     from ._configs import stage as _config_stage
     _config_stage(ctx, ['parse', 'bic'])
-    ctx.require_classes("alias-spelling", "registry-formats", "ws-extreme", "ws-extreme-defects", "token", "argform-userstr", "argform-own-object", "bic-argform-own-object",
+    ctx.require_classes("content-extreme", "bic-content-extreme", "alias-spelling", "registry-formats", "ws-extreme", "ws-extreme-defects", "token", "argform-userstr", "argform-own-object", "bic-argform-own-object",
                         "valid", "replace-defects-1", "replace-defects-2", "inject-1-defects", "inject-4-defects",
                         "nationally-invalid", "codepoint", "bic-codepoint", "bic-base", "bic-multi-defects-3", "hyp-iban-near", "hyp-bic-near")
